@@ -295,13 +295,13 @@ func genC17(rng *rand.Rand, n int) []c17op {
 
 func c17Scripted() map[string][]c17op {
 	return map[string][]c17op{
-		"remove-on-empty":  {{Op: "new"}, {Op: "remove", Key: "k16a"}, {Op: "get"}, {Op: "add", Key: "k16a"}, {Op: "primary"}},
+		"remove-on-empty":          {{Op: "new"}, {Op: "remove", Key: "k16a"}, {Op: "get"}, {Op: "add", Key: "k16a"}, {Op: "primary"}},
 		"remove-middle-while-held": {{Op: "new", Key: "k16a", Keys: []string{"k16b", "k24", "k32"}}, {Op: "get"}, {Op: "remove", Key: "k16b"}, {Op: "get"}, {Op: "remove", Key: "k24"}, {Op: "primary"}},
-		"remove-primary":   {{Op: "new", Key: "k16a", Keys: []string{"k16b"}}, {Op: "remove", Key: "k16a"}, {Op: "use", Key: "k16b"}, {Op: "remove", Key: "k16b"}, {Op: "remove", Key: "k16a"}, {Op: "get"}},
-		"use-uninstalled":  {{Op: "new", Key: "k16a"}, {Op: "use", Key: "k24"}, {Op: "primary"}, {Op: "add", Key: "k24"}, {Op: "use", Key: "k24"}, {Op: "primary"}},
-		"invalid-lengths":  {{Op: "new", Key: "k16a"}, {Op: "add", Key: "bad15"}, {Op: "add", Key: "bad17"}, {Op: "add", Key: "empty"}, {Op: "add", Key: "nil"}, {Op: "use", Key: "bad15"}, {Op: "get"}},
-		"duplicate-add":    {{Op: "new", Key: "k16a", Keys: []string{"k16a", "k16b", "k16b"}}, {Op: "add", Key: "k16a"}, {Op: "add", Key: "k16b"}, {Op: "get"}},
-		"new-invalid":      {{Op: "new", Key: "bad15"}, {Op: "new", Key: "empty", Keys: []string{"k16a"}}, {Op: "new", Key: "k16a", Keys: []string{"bad17"}}, {Op: "new", Key: "k32"}, {Op: "get"}},
+		"remove-primary":           {{Op: "new", Key: "k16a", Keys: []string{"k16b"}}, {Op: "remove", Key: "k16a"}, {Op: "use", Key: "k16b"}, {Op: "remove", Key: "k16b"}, {Op: "remove", Key: "k16a"}, {Op: "get"}},
+		"use-uninstalled":          {{Op: "new", Key: "k16a"}, {Op: "use", Key: "k24"}, {Op: "primary"}, {Op: "add", Key: "k24"}, {Op: "use", Key: "k24"}, {Op: "primary"}},
+		"invalid-lengths":          {{Op: "new", Key: "k16a"}, {Op: "add", Key: "bad15"}, {Op: "add", Key: "bad17"}, {Op: "add", Key: "empty"}, {Op: "add", Key: "nil"}, {Op: "use", Key: "bad15"}, {Op: "get"}},
+		"duplicate-add":            {{Op: "new", Key: "k16a", Keys: []string{"k16a", "k16b", "k16b"}}, {Op: "add", Key: "k16a"}, {Op: "add", Key: "k16b"}, {Op: "get"}},
+		"new-invalid":              {{Op: "new", Key: "bad15"}, {Op: "new", Key: "empty", Keys: []string{"k16a"}}, {Op: "new", Key: "k16a", Keys: []string{"bad17"}}, {Op: "new", Key: "k32"}, {Op: "get"}},
 	}
 }
 
